@@ -1150,6 +1150,12 @@ where
                     if body.is_empty() {
                         runtime_types.insert(Some(atom!("Object")));
                     }
+                } else if let Some(types) = self.enums.get(&key) {
+                    // the values of an enum are the strings / numbers of its members
+                    runtime_types.extend(types.iter().cloned().map(Some));
+                    if types.is_empty() {
+                        runtime_types.insert(Some(atom!("Number")));
+                    }
                 } else {
                     match &*ident.sym {
                         "Array" | "Function" | "Object" | "Set" | "Map" | "WeakSet" | "WeakMap"
@@ -1196,6 +1202,14 @@ where
                             } else {
                                 runtime_types.insert(Some(atom!("Object")));
                             }
+                        }
+                        _ if self.imported_names.contains_key(&key)
+                            || ident.ctxt.has_mark(self.unresolved_mark) =>
+                        {
+                            // a type imported from another module, or a global / utility type
+                            // this transform does not know: nothing is known about its values,
+                            // so nothing is checked
+                            runtime_types.insert(Some(atom!("any")));
                         }
                         _ => {
                             runtime_types.insert(Some(atom!("Object")));
